@@ -712,7 +712,13 @@ func (fr *Frame) checkSinks(callee string, args []*Val) {
 				return // an object with behaviour (the caller's writer), not a boxed value
 			}
 			// boxed values: look inside for every candidate dynamic type that carries bytes
-			for id, t := range vc.w.typeByID {
+			var ids []int
+			for id := range vc.w.typeByID {
+				ids = append(ids, id)
+			}
+			sort.Ints(ids) // a fixed order: the solvers' running time depends on the order of the assertions
+			for _, id := range ids {
+				t := vc.w.typeByID[id]
 				if isStringT(t) || isSliceT(t) && typeStr(elemOf(t)) == "uint8" {
 					inner := fr.load(v.L[1], t)
 					save := fr.reach
